@@ -1014,6 +1014,32 @@ def eval_E(ctx, exe, mexe, cases, st):
             meta.append((c, seed, dist))
     impl = run_impl(ctx, exe, lines)
     pd_lines, pd_idx, sub_lines, sub_idx = [], [], [], []
+    # embed() itself against the routine-level pipeline (mode T, which is tied to the model): same landmarks,
+    # same callback table -> the two embeddings must agree to rounding (closes the gap that mode T repeats the
+    # lines of embed() instead of calling it)
+    x_lines, x_idx = [], []
+    for (c, seed, dist), res in zip(meta, impl):
+        perm, Y, problem = parse_api(res, c["N"], c["d"])
+        count = int(c["N"] * c["ratio"])
+        if perm is not None and Y is not None and sorted(perm) == list(range(c["N"])) and c["d"] <= count:
+            x_lines.append("T %d %d %d %s %s" % (c["N"], count, c["d"], " ".join(map(str, perm[:count])),
+                                                 " ".join(hx(v) for v in flat(dist))))
+            x_idx.append((c, seed, Y))
+    for (c, seed, Y), res in zip(x_idx, run_impl(ctx, exe, x_lines) if x_lines else []):
+        st.evals += 1
+        st.count("E_embed_vs_routines")
+        try:
+            Z = parse_hex_floats(res["rows"]["EMB"])
+        except (KeyError, ValueError):
+            continue
+        if len(Z) != len(flat(Y)) or not finite(Z):
+            continue
+        scale = max(1.0, max(abs(v) for v in Z))
+        worst = max(abs(a - b) for a, b in zip(flat(Y), Z))
+        if worst > 1e-7 * scale:
+            ctx.mismatch(jsonable(dict(c, seeds=[seed])), "LandmarkMultidimensionalScaling::embed() and the same "
+                         "pipeline through the internal routines (harness mode T, tied to the model) differ by %g on "
+                         "the same landmarks" % worst)
     for (c, seed, dist), res in zip(meta, impl):
         st.evals += 1
         st.count("E_lmds_d%d" % c["d"])
